@@ -36,6 +36,9 @@ static int f_require_rval(int c) { REQUIRE_RVAL(c ? 1 : (bump(), 0), 43); R->con
 static int f_assert_pct(int c) { ASSERT_RVAL(c ? 1 : (bump(), strcmp("100%%", "x") == 0), 41); R->continued = 1; return 7; }
 static int f_require_pct(int c) { REQUIRE_RVAL(c ? 1 : (bump(), strcmp("100%%", "x") == 0), 43); R->continued = 1; return 7; }
 static void p_assert_pct(void) { R->ret = f_assert_pct(0); } static void p_require_pct(void) { R->ret = f_require_pct(0); }
+static void f_assert_pct_v(int c) { ASSERT(c ? 1 : (bump(), strcmp("100%%", "x") == 0)); R->continued = 1; }
+static void f_require_pct_v(int c) { REQUIRE(c ? 1 : (bump(), strcmp("100%%", "x") == 0)); R->continued = 1; }
+static void p_assert_pct_v(void) { f_assert_pct_v(0); } static void p_require_pct_v(void) { f_require_pct_v(0); }
 static void p_assert_t(void) { f_assert(1); } static void p_assert_f(void) { f_assert(0); }
 static void p_assert_rval_t(void) { R->ret = f_assert_rval(1); } static void p_assert_rval_f(void) { R->ret = f_assert_rval(0); }
 static void p_notreached_rval(void) { R->ret = f_notreached_rval(); }
@@ -62,6 +65,7 @@ static const probe_t PROBES[] = {
     { "ASSERT_NOTREACHED_RVAL(42)", p_notreached_rval, G_NOTREACHED_RVAL, 42, 0 },
     { "REQUIRE(true)", p_require_t, G_REQUIRE_T, 0, 0 }, { "REQUIRE(false)", p_require_f, G_REQUIRE_F, 0, 0 }, { "REQUIRE_RVAL(true)", p_require_rval_t, G_REQUIRE_T, 0, 0 }, { "REQUIRE_RVAL(false,43)", p_require_rval_f, G_REQUIRE_RVAL_F, 43, 0 },
     { "ASSERT_RVAL(false,41) on a condition containing \"100%%\"", p_assert_pct, G_ASSERT_RVAL_F, 41, 0 }, { "REQUIRE_RVAL(false,43) on a condition containing \"100%%\"", p_require_pct, G_REQUIRE_RVAL_F, 43, 0 },
+    { "ASSERT(false) on a condition containing \"100%%\"", p_assert_pct_v, G_ASSERT_F, 0, 0 }, { "REQUIRE(false) on a condition containing \"100%%\"", p_require_pct_v, G_REQUIRE_F, 0, 0 },
     { "if (true) D_CONF(...); else counter++;", p_d_if_true, G_DLEVEL, 3, 0 }, { "if (false) D_CONF(...); else counter++;", p_d_if_false, G_NEVER, 0, 0 },
     { "libast_dprintf", p_prim_dprintf, G_PRIM, 0, 0 }, { "libast_print_warning", p_prim_warning, G_PRIM, 0, 0 }, { "libast_print_error", p_prim_error, G_PRIM, 0, 0 },
     { "D_CONF in spiftool_version_compare", p_lib_conf, G_LIB, 3, 1 }, { "D_OPTIONS in spifopt_parse", p_lib_options, G_LIB, 1, 1 }, { "D_OBJ in spif_mbuff_init_from_fp", p_lib_obj, G_LIB, 2, 1 }, { "D_MEM in spifmem_malloc", p_lib_mem, G_LIB, 5, 1 },
